@@ -438,8 +438,19 @@ class World:
         self._carried_controller = carried  # the controller a runner would carry into the next step (C16)
         return sim
 
+    def dest_cell(self, name: str):
+        """the cell a request is delivered to: its requested destination snapped to the network (identity on the straight-line
+        network; on a street graph the nearest cell of the nearest link -- that snapping itself is C13's subject)"""
+        memo = self.__dict__.setdefault("_dest_cells", {})
+        if name not in memo:
+            spec = self.request_specs.get(name)
+            memo[name] = None if spec is None else self.rn.position_from_geoid(spec["destination"]).geoid
+        return memo[name]
+
     def _start_time(self) -> int:
         t = getattr(self, "_t_start", None)
+        if t is None and not self.starts:
+            return -1  # still building the start state (a world stepping inside its constructor): carried form
         if t is None:
             t = self._t_start = min(int(s.sim_time) for s in self.starts.values())
         return t
